@@ -54,8 +54,13 @@ pub fn bytes_record(r: &mut Rng) -> Value {
     }
     p.fill_slack(needles[0]);
     let h = p.slice();
+    json!({"k": "bytes", "n": needles, "h": h, "obs": bytes_obs(&needles, h)})
+}
+
+/// All byte-search observations for the given needles and haystack.
+pub fn bytes_obs(needles: &[u8], h: &[u8]) -> Vec<Value> {
     let mut o = Vec::new();
-    for sr in all_searchers(&needles, false) {
+    for sr in all_searchers(needles, false) {
         let b = sr.backend();
         let s = h.as_ptr();
         let e = unsafe { s.add(h.len()) };
@@ -75,7 +80,7 @@ pub fn bytes_record(r: &mut Rng) -> Value {
         o.push(obs(&format!("{b}.iter.next"), "first", json!(opt_to_i(it.next())), 0, false));
         o.push(obs(&format!("{b}.iter.next_back"), "last", json!(opt_to_i(sr.iter(h).next_back())), 0, false));
     }
-    json!({"k": "bytes", "n": needles, "h": h, "obs": o})
+    o
 }
 
 fn structured_needle(r: &mut Rng) -> Vec<u8> {
@@ -162,6 +167,12 @@ fn structured_haystack(r: &mut Rng, n: &[u8]) -> Vec<u8> {
 pub fn sub_record(r: &mut Rng) -> Value {
     let n = structured_needle(r);
     let h = structured_haystack(r, &n);
+    json!({"k": "sub", "n": n, "h": h, "obs": sub_obs(&n, &h)})
+}
+
+/// All substring observations for the given needle and haystack.
+pub fn sub_obs(n: &[u8], h: &[u8]) -> Vec<Value> {
+    let (n, h) = (n.to_vec(), h.to_vec());
     let mut o = Vec::new();
     let fwd = |it: &mut dyn Iterator<Item = usize>, cap: usize| -> Vec<usize> { it.take(cap).collect() };
     let cap = h.len() + 3;
@@ -215,7 +226,18 @@ pub fn sub_record(r: &mut Rng) -> Value {
         o.push(obs("is_suffix", "suffix", json!(is_suffix(&h, &n) as u8), 0, false));
         o.push(obs("is_equal", "eq", json!(is_equal(&h, &n) as u8), 0, false));
     }
-    json!({"k": "sub", "n": n, "h": h, "obs": o})
+    o
+}
+
+/// Replay of a recorded input: re-execute every observation for (n, h) of a saved record on the current tree.
+pub fn rerecord(inp: &str, out: &str) {
+    let v: Value = serde_json::from_str(&std::fs::read_to_string(inp).unwrap()).unwrap();
+    let rec = v.get("ctx").and_then(|c| c.get("record")).unwrap_or(&v);
+    let n = get_bytes(rec, "n");
+    let h = get_bytes(rec, "h");
+    let k = rec.get("k").and_then(|x| x.as_str()).unwrap_or("sub");
+    let o = if k == "bytes" || k == "conc" { bytes_obs(&n, &h) } else { sub_obs(&n, &h) };
+    std::fs::write(out, format!("{}\n", json!({"k": k, "n": n, "h": h, "obs": o}))).unwrap();
 }
 
 /// Keep only the observations whose kind is in `kinds` (empty = all) and, for substring records,
